@@ -32,7 +32,10 @@ RULE = ('histories of start, kill (processor.kill or promise.kill), re-start, '
         'gc.collect() a finished or killed generator must be dead no later '
         'than the frame in which it would next have run. Non-trivial = a kill '
         'or restart applied to a coroutine that is waiting or was started in '
-        'the same frame, or a release case with a killed waiter.')
+        'the same frame, or a release case with a killed waiter.'
+        ' Rounds 9-13 added: many sleepers with restarts through the'
+        ' lifecycle oracle; bodies raising exceptions that are not'
+        ' Exceptions.')
 ANCHORS = [
     'desper/logic/coroutines.py::CoroutineProcessor.start',
     'desper/logic/coroutines.py::CoroutineProcessor.kill',
